@@ -414,6 +414,7 @@ impl ConnectionEngine {
             || old(self).connection.st is OpenClosePipe || old(self).connection.st is End || old(self).connection.st is Start)
             && r is Ok ==> final(self).transport.sent@ == old(self).transport.sent@.push(Frame { channel: 0, body: FrameBody::Empty }),   // [C17.heartbeat.empty-frame] a heartbeat tick writes exactly one empty frame on channel 0
         old(self).connection.st is End ==> r == Ok::<Running, ConnectionInnerError>(Running::Stop),
+        r is Ok ==> (r->Ok_0 is Stop <==> old(self).connection.st is End),       // [C12.engine.stops-exactly-at-end] the connection's engine task goes on in every state but End and ends there: it does not stop under a connection that still owes (or awaits) its Close, and does not go on polling after the closing handshake
 //@@ end
 
 //@@ fn file=fe2o3-amqp/src/connection/engine.rs impl=`~impl<Io,C>ConnectionEngine<Io,C>whereIo:AsyncRead+AsyncWrite+std::fmt::Debug+SendBound+Unpin+'static,C:endpoint::Connection<State=ConnectionState>` name=on_outgoing_session_frames
@@ -447,6 +448,7 @@ impl ConnectionEngine {
 //@@ subst `SessionFrame::new(channel, ` => `SessionFrame::new(channel.0, ` rule=R16
 //@@ spec
     ensures
+        r is Ok ==> (r->Ok_0 is Stop <==> final(self).connection.st is End),       // [C12.engine.stops-exactly-at-end] the connection's engine task goes on in every state but End and ends there: it does not stop under a connection that still owes (or awaits) its Close, and does not go on polling after the closing handshake
         old(self).connection.st is Discarding && !(frame.body is Close) ==>
             r == Ok::<Running, ConnectionInnerError>(Running::Continue) && *final(self) == *old(self),                  // [C12.discarding.ignore] after closing with an error everything but the peer's Close is ignored: no state change, nothing sent, nothing forwarded
         old(self).connection.st is CloseSent && !(frame.body is Close) ==>
@@ -545,6 +547,7 @@ impl ConnectionEngine {
 //@@ subst `.map_err(|_v0| ConnectionInnerError::IllegalState)` => `.map_err(|_v0: Result<OutgoingChannel, AllocSessionError>| -> (o: ConnectionInnerError) { ConnectionInnerError::IllegalState })` rule=optional-R5
 //@@ spec
     ensures
+        r is Ok ==> (r->Ok_0 is Stop <==> final(self).connection.st is End),       // [C12.engine.stops-exactly-at-end] the connection's engine task goes on in every state but End and ends there: it does not stop under a connection that still owes (or awaits) its Close, and does not go on polling after the closing handshake
         control is Close && close_already_sent(old(self).connection.st) ==> extended_without_close(old(self).transport.sent@, final(self).transport.sent@),                                 // [C12.close-at-most-once] a close request from the handle after a close has already been sent (try_close polled again, close after close_with_error) puts no second Close on the wire
         control is Close && close_already_sent(old(self).connection.st) ==> r is Ok && final(self).transport.sent@ == old(self).transport.sent@ && final(self).connection.st == old(self).connection.st,   // [C12.repeated-close-request-ignored] a further close request after the local Close went out (try_close polled again, close() retried after a timeout) is ignored: it is not an error that would turn the result of a clean close into IllegalState
         control is Close && !close_already_sent(old(self).connection.st) && r is Ok ==> ({
